@@ -46,14 +46,24 @@ SuiteOps == {"sq", "tq", "saddf", "saddc", "sinv", "sclone", "sadd", "sdel", "ss
 \*   "Cfit"/"Cisc"/"Ccov": one test and its clones; "Mfit"/"Misc"/"Mcov": suite, its members, a spare test
 CloneOps == {"tq", "tclone", "tmut", "txo", "tinv"}
 MemberOps == {"sq", "tq", "smut", "sadd", "sdel", "sset", "sclone", "sinv", "tmut"}
-FocusC == {"Cfit", "Cisc", "Ccov"}
-FocusM == {"Mfit", "Misc", "Mcov"}
-KindOf(m) == IF m \in {"Cfit", "Mfit"} THEN "fit" ELSE IF m \in {"Cisc", "Misc"} THEN "isc" ELSE "cov"
+\*   "PC*"/"PM*": same populations, histories of the shape query, [clone/add], edit, query, [query]
+\*   (MC_Cache.Phase) -- every such call sequence, not one per model state
+PatC == {"PCfit", "PCisc", "PCcov"}
+PatM == {"PMfit", "PMisc", "PMcov"}
+FocusC == {"Cfit", "Cisc", "Ccov"} \cup PatC
+FocusM == {"Mfit", "Misc", "Mcov"} \cup PatM
+KindOf(m) == IF m \in {"Cfit", "Mfit", "PCfit", "PMfit"} THEN "fit"
+             ELSE IF m \in {"Cisc", "Misc", "PCisc", "PMisc"} THEN "isc" ELSE "cov"
+PatMOps == {"sq", "tq", "smut", "sxo", "sadd", "sdel", "sset", "sclone"}
 ModeOps(m) == IF m = "T" THEN TestOps ELSE IF m = "S" THEN SuiteOps
+              ELSE IF m \in PatM THEN PatMOps
               ELSE IF m \in FocusC THEN CloneOps ELSE IF m \in FocusM THEN MemberOps ELSE AllOps
 ModesTS == {"T", "S"}
 ModesAll == {"T", "S"} \cup FocusC \cup FocusM
+ModesDesign == ModesAll \ (PatC \cup PatM)
+PatModes == PatC \cup PatM
 ModesA == {"A"}
+ModesSim == {"A"} \cup FocusC \cup FocusM
 
 TIds == 1..NT
 SIds == 1..NS
@@ -97,7 +107,8 @@ Acts(W0) ==
 OutRec(id, c, h, u, d) == [id |-> id, c |-> c, chg |-> h, sut |-> u, did |-> d]
 Same(W0, m) == OutRec(m, W0.t[m].c, W0.t[m].chg, W0.t[m].sut, FALSE)
 Cands(W0, m, newv) ==
-  IF Coarse THEN {OutRec(m, W0.t[m].c, W0.t[m].chg, W0.t[m].sut, TRUE), OutRec(m, newv, TRUE, TRUE, TRUE)}
+  IF Coarse \/ W0.mode \in PatC \cup PatM
+  THEN {OutRec(m, W0.t[m].c, W0.t[m].chg, W0.t[m].sut, TRUE), OutRec(m, newv, TRUE, TRUE, TRUE)}
   ELSE {OutRec(m, c, h, u, TRUE) : c \in {W0.t[m].c, EmptyV, newv}, h \in BOOLEAN, u \in BOOLEAN}
 
 RECURSIVE MemOuts(_, _, _)
@@ -118,7 +129,7 @@ Outs(W0, act) ==
          LET mem == W0.s[act.a].mem
              nv  == W0.clk + Len(mem) + 1
              add == IF FreeT(W0) # {} /\ Len(mem) < MaxSuite
-                    THEN IF Coarse THEN {<<>>, <<[c |-> nv, sut |-> TRUE]>>}
+                    THEN IF Coarse \/ W0.mode \in PatC \cup PatM THEN {<<>>, <<[c |-> nv, sut |-> TRUE]>>}
                          ELSE {<<>>, <<[c |-> nv, sut |-> TRUE]>>, <<[c |-> nv, sut |-> FALSE]>>,
                                <<[c |-> EmptyV, sut |-> FALSE]>>}
                     ELSE {<<>>}
@@ -134,6 +145,7 @@ Do(act, out) ==
         /\ obs' = r.v
 
 DepthOf(W0) == IF W0.mode = "T" THEN MaxDepth + ExtraT
+               ELSE IF W0.mode \in PatC \cup PatM THEN 5
                ELSE IF W0.mode \in FocusC THEN MaxDepth + ExtraC
                ELSE IF W0.mode \in FocusM THEN MaxDepth + ExtraM ELSE MaxDepth
 Next == /\ TLCGet("level") <= DepthOf(W)
@@ -153,7 +165,9 @@ InitWorld(mode, sut1, regF, regC) ==
    clk |-> 2, mode |-> mode]
 
 \* the focus modes start with everything registered and a call on the SUT
-InitParams(mode) == IF mode \in FocusC \cup FocusM THEN {<<TRUE, TRUE, TRUE>>} ELSE BOOLEAN \X BOOLEAN \X BOOLEAN
+InitParams(mode) == IF mode \in FocusC \cup FocusM THEN {<<TRUE, TRUE, TRUE>>}
+                    ELSE IF mode = "A" THEN {<<TRUE, TRUE, TRUE>>, <<FALSE, FALSE, TRUE>>}
+                    ELSE BOOLEAN \X BOOLEAN \X BOOLEAN
 Init == /\ \E mode \in Modes : \E pr \in InitParams(mode) : W = InitWorld(mode, pr[1], pr[2], pr[3])
         /\ obs = NoV
 
